@@ -23,7 +23,7 @@ def one(m):
             d = tempfile.mkdtemp(prefix="sany-")
             try:
                 open(os.path.join(d, "MTData.tla"), "w").write(
-                    "---- MODULE MTData ----\nEXTENDS Integers, Sequences, TLC\nMT_Runs == <<>>\n====\n")
+                    "---- MODULE MTData ----\nEXTENDS Integers, Sequences, TLC\nMT_Runs == <<>>\nMT_Ends == <<>>\n====\n")
                 open(os.path.join(d, "RunMT.tla"), "w").write("---- MODULE RunMT ----\nEXTENDS SchedMT\n====\n")
                 tlc.sany(os.path.join(d, "RunMT.tla"))
             finally:
